@@ -19,7 +19,7 @@ func init() {
 	register(&Rule{ID: "C10.AT", Min: 1, Doc: "a remembered project is reused only for a path whose own lookup finds the same root", Run: runC10At})
 	register(&Rule{ID: "C10.CACHEKEY", Min: 4, Doc: "per-repository caches are keyed by the root directory as is", Run: runC10CacheKey})
 	register(&Rule{ID: "C16.ONCE", Min: 3, Doc: "a format template is executed once per run over the diagnostics of all files", Run: runC16Once})
-	register(&Rule{ID: "C17.STATELESS", Min: 8, Doc: "every non-empty filter value is validated, by the validator of its filter kind, whatever was validated before", Run: runC17Stateless})
+	register(&Rule{ID: "C17.STATELESS", Min: 7, Doc: "every non-empty filter value is validated, by the validator of its filter kind, whatever was validated before", Run: runC17Stateless})
 	register(&Rule{ID: "C18.ORDER", Min: 2, Doc: "search and reconstruction iterate the neighbours of a node in the same (stored) order", Run: runC18Order})
 	register(&Rule{ID: "C15.CONFPAT", Min: 1, Doc: "every ignore pattern of the configuration file is compiled on its own", Run: runC15ConfPat})
 	register(&Rule{ID: "C11.FILTER", Min: 2, Doc: "the matcher remembers an object filter on every path and the index handler consults it", Run: runC11Filter})
@@ -777,71 +777,127 @@ func runC16Once(c *Ctx) {
 // Whether a filter value is validated, and by which validator, depends on that value and the kind of its filter only.
 func runC17Stateless(c *Ctx) {
 	p := c.P
-	want := map[string]string{"(*RuleGlob).checkGitRefGlobs": "ValidateRefGlob", "(*RuleGlob).checkFilePathGlobs": "ValidatePathGlob"}
-	for fname, val := range want {
-		var fn *ssa.Function
-		for _, f := range p.Funcs {
-			if FuncName(f) == fname {
-				fn = f
-			}
+	isValidator := func(f *ssa.Function) string {
+		if f != nil && inModule(f) && (f.Name() == "ValidateRefGlob" || f.Name() == "ValidatePathGlob") {
+			return f.Name()
 		}
-		if fn == nil {
-			c.anchorMissing(fname)
-			continue
-		}
-		calls := findCalls(fn, val)
-		other := "ValidatePathGlob"
-		if val == other {
-			other = "ValidateRefGlob"
-		}
-		construct := fname + "|every value validated with " + val
-		if len(calls) != 1 || len(findCalls(fn, other)) != 0 {
-			c.bad(construct, fn.Pos(), fmt.Sprintf("%d calls of %s and %d of %s", len(calls), val, len(findCalls(fn, other)), other))
-			continue
-		}
-		var extras []string
-		for ifi, outcome := range controllingConds(calls[0].Block()) {
-			cc := classifyCond(ifi, outcome)
-			switch {
-			case cc.kind == "loop":
-			case cc.kind == "nilparam" && !cc.out:
-			default:
-				// v.Value != ""
-				if bo, ok := ifi.Cond.(*ssa.BinOp); ok && (bo.Op == token.NEQ || bo.Op == token.EQL) {
-					if f, _ := fieldLoad(bo.X); f == "String.Value" {
-						if s, ok := constString(bo.Y); ok && s == "" {
-							continue
-						}
-					}
-				}
-				extras = append(extras, cc.kind+" "+cc.field+cc.table)
-			}
-		}
-		sort.Strings(extras)
-		if len(extras) == 0 {
-			c.ok(construct, calls[0].Pos(), "for every non-empty value of the filter, unconditionally")
-		} else {
-			c.bad(construct, calls[0].Pos(), "whether a value is validated also depends on: "+strings.Join(extras, "; ")+" - a value skipped because of earlier values is not reported")
-		}
+		return ""
 	}
-	// the right validator for each filter
+	funcValue := func(v ssa.Value) *ssa.Function {
+		switch x := unwrap(v).(type) {
+		case *ssa.Function:
+			return x
+		case *ssa.MakeClosure:
+			if f, ok := x.Fn.(*ssa.Function); ok {
+				return f
+			}
+		}
+		return nil
+	}
+	doneG := map[*ssa.Function]bool{}
+	nSites := 0
 	for _, caller := range p.Funcs {
 		if !strings.HasSuffix(p.File(caller.Pos()), "/rule_glob.go") {
 			continue
 		}
-		for fname, val := range want {
-			for _, call := range findCalls(caller, fname) {
-				f, _ := fieldLoad(call.Common().Args[1])
-				isRef := strings.Contains(f, "Branches") || strings.Contains(f, "Tags")
-				isPath := strings.Contains(f, "Paths")
-				construct := fmt.Sprintf("%s|%s validated as %s", FuncName(caller), f, strings.TrimPrefix(val, "Validate"))
-				if (val == "ValidateRefGlob" && isRef) || (val == "ValidatePathGlob" && isPath) {
-					c.ok(construct, call.Pos(), "filter and validator agree")
-				} else {
-					c.bad(construct, call.Pos(), "a "+f+" filter is validated with "+val)
+		eachInstr(caller, func(_ *ssa.BasicBlock, _ int, in ssa.Instruction) {
+			call, ok := in.(*ssa.Call)
+			if !ok {
+				return
+			}
+			g := staticCallee(&call.Call)
+			if g == nil || !inModule(g) || g.Blocks == nil {
+				return
+			}
+			// a filter of a webhook event handed to g
+			field, ai := "", -1
+			for i, a := range call.Call.Args {
+				if f, _ := fieldLoad(a); strings.HasPrefix(f, "WebhookEvent.") && strings.HasSuffix(typeStr(a.Type()), "WebhookEventFilter") {
+					field, ai = f, i
 				}
 			}
-		}
+			if ai < 0 {
+				return
+			}
+			nSites++
+			// the validators g applies: called directly, or through a function parameter that this call site fills
+			applied := map[string]bool{}
+			var vcalls []ssa.CallInstruction
+			eachInstr(g, func(_ *ssa.BasicBlock, _ int, in2 ssa.Instruction) {
+				c2, ok := in2.(ssa.CallInstruction)
+				if !ok {
+					return
+				}
+				if n := isValidator(staticCallee(c2.Common())); n != "" {
+					applied[n] = true
+					vcalls = append(vcalls, c2)
+					return
+				}
+				if prm, ok := c2.Common().Value.(*ssa.Parameter); ok && !c2.Common().IsInvoke() {
+					for k, q := range g.Params {
+						if q == prm && k < len(call.Call.Args) {
+							if n := isValidator(funcValue(call.Call.Args[k])); n != "" {
+								applied[n] = true
+								vcalls = append(vcalls, c2)
+							} else {
+								applied["a function that is not one of the two validators"] = true
+							}
+						}
+					}
+				}
+			})
+			isRef := strings.Contains(field, "Branches") || strings.Contains(field, "Tags")
+			want := "ValidatePathGlob"
+			if isRef {
+				want = "ValidateRefGlob"
+			}
+			construct := fmt.Sprintf("%s|%s validated as %s", FuncName(caller), field, strings.TrimPrefix(want, "Validate"))
+			if len(applied) == 1 && applied[want] {
+				c.ok(construct, call.Pos(), "filter and validator agree")
+			} else {
+				var got []string
+				for n := range applied {
+					got = append(got, n)
+				}
+				sort.Strings(got)
+				c.bad(construct, call.Pos(), "a "+field+" filter is validated with "+strings.Join(got, ", ")+" (expected "+want+")")
+			}
+			// every non-empty value of the filter reaches the validator, whatever was validated before
+			if doneG[g] || len(vcalls) == 0 {
+				return
+			}
+			doneG[g] = true
+			construct = FuncName(g) + "|every value validated"
+			var extras []string
+			for _, vc := range vcalls {
+				for ifi, outcome := range controllingConds(vc.Block()) {
+					cc := classifyCond(ifi, outcome)
+					switch {
+					case cc.kind == "loop":
+					case cc.kind == "nilparam" && !cc.out:
+					default:
+						// v.Value != ""
+						if bo, ok := ifi.Cond.(*ssa.BinOp); ok && (bo.Op == token.NEQ || bo.Op == token.EQL) {
+							if f, _ := fieldLoad(bo.X); f == "String.Value" {
+								if s, ok := constString(bo.Y); ok && s == "" {
+									continue
+								}
+							}
+						}
+						extras = append(extras, cc.kind+" "+cc.field+cc.table)
+					}
+				}
+			}
+			sort.Strings(extras)
+			if len(extras) == 0 {
+				c.ok(construct, vcalls[0].Pos(), "for every non-empty value of the filter, unconditionally")
+			} else {
+				c.bad(construct, vcalls[0].Pos(), "whether a value is validated also depends on: "+strings.Join(extras, "; ")+" - a value skipped because of earlier values is not reported")
+			}
+		})
+	}
+	if nSites == 0 {
+		c.anchorMissing("a webhook event filter handed to a checking function in rule_glob.go")
 	}
 }
 
